@@ -159,6 +159,10 @@ HEADERS = {
     'pairx': ('({T0}, X0)', ['T0']),
     'optpair': ('(Option<{T0}>, {T1})', ['T0', 'T1']),
     'vecvec': ('(Vec<{T0}>, Vec<{T1}>)', ['T0', 'T1']),
+    'refvec': ("&{L0} Vec<{T0}>", ['L0', 'T0']),
+    'arr2': ('[{T0}; 2]', ['T0']),
+    'arrvec': ('[Vec<{T0}>; {N0}]', ['T0', 'N0']),
+    'w3': ('W<{T0}, 3>', ['T0']),
     'optvec': ('(Option<{T0}>, Vec<{T1}>)', ['T0', 'T1']),
 }
 SPELL = {'T0': ['T', 'U', 'A', 'Elem', 'Tr', 'T0'], 'T1': ['U', 'T', 'B', 'Other', 'V', 'G'],
@@ -555,6 +559,10 @@ def gen_case(rng, kind, idx=None):
             ('pair', 'dup', '{T1}', '{T0}'),              # (T,U) > (T,T): non-injective
             ('pair', 'dup', '{T0}', '{T0}'),
             ('pair', 'pairvec', '{T1}', 'Vec<{T1}>'),     # key on U, re-expressed as Vec<U>
+            ('ref', 'refvec', '{T0}', 'Vec<{T0}>'),       # &'a T > &'a Vec<T>
+            ('arr', 'arr2', '{T0}', '{T0}'),              # [T; N] > [T; 2]: a const parameter bound to an expression
+            ('arr', 'arrvec', '{T0}', 'Vec<{T0}>'),       # [T; N] > [Vec<T>; N]
+            ('w', 'w3', '{T0}', '{T0}'),                  # W<T, N> > W<T, 3>
         ])
         if key is None:
             # T > Vec<T>: general key on T itself == the whole nested header
